@@ -761,7 +761,8 @@ class LongReadAssigner:
 
         min_penalty_score = min(isoform_scores, key=lambda x:x[1])[1]
         # logger.debug("* * Best penalty_score " + str(min_penalty_score))
-        best_isoforms = [x[0] for x in filter(lambda x:x[1] == min_penalty_score, isoform_scores)]
+        # penalties are sums of event costs: the order of the events must not break ties (0.6+0.6+0.6+1 != 1+0.6+0.6+0.6)
+        best_isoforms = [x[0] for x in filter(lambda x:x[1] - min_penalty_score < 1e-6, isoform_scores)]
         # logger.debug("* * Best isoforms " + str(best_isoforms))
 
         # if several isoforms are tied select the best according to nucl penalty_score
